@@ -171,6 +171,13 @@ Definition c_row_norms (inp : rawZ) (out : list Z) : N :=
 Definition c_col_norms_sym (inp : rawZ) (out : list Z) : N :=
   ofb (zlist_eqb out (col_norms_sym OpsZ (decode inp))).
 
+Definition c_col_norms_from (inp : rawZ) (s out : list Z) : N :=
+  ofb (zlist_eqb out (col_norms_from OpsZ (decode inp) s)).
+Definition c_row_norms_from (inp : rawZ) (s out : list Z) : N :=
+  ofb (zlist_eqb out (row_norms_from OpsZ (decode inp) s)).
+Definition c_col_norms_sym_from (inp : rawZ) (s out : list Z) : N :=
+  ofb (zlist_eqb out (col_norms_sym_from OpsZ (decode inp) s)).
+
 (** ** independent dense oracles (used by the failing-input search and as a second opinion:
     they do not go through the sparse model at all) *)
 Definition dense_of_raw (r : rawZ) : list (list Z) := to_dense OpsZ (decode r).
